@@ -264,6 +264,53 @@ theorem irf_add_pos (b : Cache) (E : Externals) (now : Int) (k v : PyVal) (hd : 
         refine ⟨(irf_staged b p).pending, ?_⟩
         exact hB
 
+/-- the result of `add` on a table without expiry: UnicodeEncodeError for a key or value cell that
+cannot be bound, `False` for a bound key, `True` otherwise -/
+def irf_addOut (dbk : SqlVal) (cb : Bool) (present : Bool) : Out :=
+  if !bindable dbk then .exc "UnicodeEncodeError"
+  else if present then .bool false
+  else if cb then .bool true
+  else .exc "UnicodeEncodeError"
+
+theorem irf_addBody_out (t : Cache) (dbk : SqlVal) (raw : Bool) (now : Int) (c : Cols)
+    (hne : NoExp t.rows) :
+    (rf_addBody dbk raw now c t).out = irf_addOut dbk c.bindable (t.selKey dbk raw).isSome := by
+  unfold rf_addBody irf_addOut
+  cases hb : bindable dbk with
+  | false => rfl
+  | true =>
+    simp only [Bool.not_true, Bool.false_eq_true, if_false]
+    cases hs : t.selKey dbk raw with
+    | some r =>
+      have hl : live now r = true := live_of_noexp (hne r (selKey_mem hs)) now
+      simp only [hl, if_true, Option.isSome_some]
+    | none =>
+      simp only [Option.isSome_none, Bool.false_eq_true, if_false]
+      cases hcb : c.bindable <;> rfl
+
+/-- the result of `add` inside a block -/
+theorem irf_add_pos_out (b : Cache) (E : Externals) (now : Int) (k v : PyVal) (hd : 0 < b.depth)
+    (hne : NoExp b.rows) :
+    (b.add E now k v none false .null).2 =
+      match place E b.cfg.disk b.cfg.minFileSize v false with
+      | .error _ => .exc "UnicodeEncodeError"
+      | .ok p => irf_addOut (keyOf E b.cfg k).1 (bindable (entryOf p none .null).val)
+          (b.selKey (keyOf E b.cfg k).1 (keyOf E b.cfg k).2).isSome := by
+  rw [rf_add_eq, irf_store_eq]
+  cases hpl : place E b.cfg.disk b.cfg.minFileSize v false with
+  | error e => rfl
+  | ok p =>
+    simp only
+    have hds : 0 < (irf_stored b p).depth := by cases p <;> exact hd
+    rw [irf_transact_pos _ _ _ hds, irf_cols_id]
+    obtain ⟨hr, -, -⟩ := irf_staged_keep b p
+    have hB := irf_addBody_out (irf_staged b p) (keyOf E b.cfg k).1 (keyOf E b.cfg k).2 now
+      (irf_cols p b.nfile) (by rw [hr]; exact hne)
+    rw [irf_cols_bindable, selKey_congr hr] at hB
+    have hst : (irf_stored b p).irf_reg (irf_cols p b.nfile).file = irf_staged b p := rfl
+    rw [hst, ← hB]
+    split <;> rfl
+
 /-! ### value files appended with fresh names do not disturb the rows that were there -/
 
 theorem irf_fetch_append (g b : Cache) (E : Externals) (r : Row) (hc : b.cfg = g.cfg)
@@ -394,27 +441,54 @@ def irf_isDefault : Out → Bool
   | .default => true
   | _ => false
 
+def irf_isExc : Out → Bool
+  | .exc _ => true
+  | _ => false
+
+/-- the dictionary after `OSpec.add`, in terms of `OSpec.setitem` -/
+theorem irf_spec_add_fst (m : ODict) (E : Externals) (cfg : Cfg) (k v : PyVal) :
+    (OSpec.add m E cfg k v).1 =
+      if m.has (keyOf E cfg k) then m else (OSpec.setitem m E cfg k v).1 := by
+  unfold OSpec.add OSpec.setitem
+  cases place E cfg.disk cfg.minFileSize v false with
+  | error e => simp only; split <;> rfl
+  | ok p =>
+    simp only
+    cases bindable (keyOf E cfg k).1 <;> cases m.has (keyOf E cfg k) <;>
+      cases bindable (entryOf p none .null).val <;> rfl
+
 theorem irf_spec_setdefault_eq (m : ODict) (E : Externals) (cfg : Cfg) (k v : PyVal) :
     OSpec.setdefault m E cfg k v =
       if irf_isDefault (OSpec.look m E cfg (keyOf E cfg k)) then
+        (if irf_isExc (OSpec.add m E cfg k v).2 then (m, (OSpec.add m E cfg k v).2)
+         else
         (if irf_isDefault (OSpec.look (if m.has (keyOf E cfg k) then m else (OSpec.setitem m E cfg k v).1)
             E cfg (keyOf E cfg k)) then (m, .exc "KeyError")
          else ((if m.has (keyOf E cfg k) then m else (OSpec.setitem m E cfg k v).1),
            OSpec.look (if m.has (keyOf E cfg k) then m else (OSpec.setitem m E cfg k v).1)
-            E cfg (keyOf E cfg k)))
+            E cfg (keyOf E cfg k))))
       else (m, OSpec.look m E cfg (keyOf E cfg k)) := by
   unfold OSpec.setdefault
   generalize OSpec.look m E cfg (keyOf E cfg k) = o
   cases o <;> try rfl
   simp only [irf_isDefault, if_true]
-  generalize OSpec.look (if m.has (keyOf E cfg k) then m else (OSpec.setitem m E cfg k v).1)
-    E cfg (keyOf E cfg k) = o'
-  cases o' <;> rfl
+  rw [← irf_spec_add_fst]
+  cases OSpec.add m E cfg k v with
+  | mk m' oa =>
+    cases oa <;> simp only [irf_isExc, Bool.false_eq_true, if_false, if_true] <;>
+      (generalize OSpec.look m' E cfg (keyOf E cfg k) = o'; cases o' <;> rfl)
 
 /-- `Index.setdefault`, the matches on the look-up results written as `if`s -/
 def irf_setdefault' (x : Index) (E : Externals) (now : Int) (k v : PyVal) : Index × Out :=
   if irf_isDefault (x.cache.get E now k false false false).2 then
     (if irf_isDefault ((x.cache.get E now k false false false).1.tbegin.get E now k false false false).2 then
+      (if irf_isExc (((x.cache.get E now k false false false).1.tbegin.get E now k false false false).1.add
+            E now k v none false .null).2 then
+        ({ cache := (((x.cache.get E now k false false false).1.tbegin.get E now k false false false).1.add
+            E now k v none false .null).1.traise 1 },
+          (((x.cache.get E now k false false false).1.tbegin.get E now k false false false).1.add
+            E now k v none false .null).2)
+      else
       (if irf_isDefault (((((x.cache.get E now k false false false).1.tbegin.get E now k false false false).1.add
             E now k v none false .null).1).get E now k false false false).2 then
         ({ cache := (((((x.cache.get E now k false false false).1.tbegin.get E now k false false false).1.add
@@ -423,7 +497,7 @@ def irf_setdefault' (x : Index) (E : Externals) (now : Int) (k v : PyVal) : Inde
         ({ cache := (((((x.cache.get E now k false false false).1.tbegin.get E now k false false false).1.add
             E now k v none false .null).1).get E now k false false false).1.tend },
           (((((x.cache.get E now k false false false).1.tbegin.get E now k false false false).1.add
-            E now k v none false .null).1).get E now k false false false).2))
+            E now k v none false .null).1).get E now k false false false).2)))
     else
       ({ cache := ((x.cache.get E now k false false false).1.tbegin.get E now k false false false).1.tend },
         ((x.cache.get E now k false false false).1.tbegin.get E now k false false false).2))
@@ -440,9 +514,11 @@ theorem irf_setdefault_eq (x : Index) (E : Externals) (now : Int) (k v : PyVal) 
     | mk c1 o1 =>
       cases o1 <;> try rfl
       simp only [if_true]
-      cases (c1.add E now k v none false .null).1.get E now k false false false with
-      | mk c3 o3 =>
-        cases o3 <;> rfl
+      cases c1.add E now k v none false .null with
+      | mk c2 oa =>
+        cases oa <;> simp only [irf_isExc, Bool.false_eq_true, if_false, if_true] <;>
+          (cases c2.get E now k false false false with
+           | mk c3 o3 => cases o3 <;> rfl)
 
 /-! ### the block of `setdefault` -/
 
@@ -555,6 +631,33 @@ theorem irf_add_in_block (G b1 : Cache) (E : Externals) (now : Int) (k v : PyVal
           simp only [hcond]
           rfl
 
+/-- the result of `add` inside the block opened on `G` is the result of the dictionary's `add` -/
+theorem irf_add_out_block (G b1 : Cache) (E : Externals) (now : Int) (k v : PyVal) (hI : irf_Inv G)
+    (hc1 : core b1 = { core G with depth := 1, snap := some G.takeSnap }) :
+    (b1.add E now k v none false .null).2 = (OSpec.add (irf_abs G) E G.cfg k v).2 := by
+  have hr1 : b1.rows = G.rows := congrArg Core.rows hc1
+  have hcf1 : b1.cfg = G.cfg := congrArg Core.cfg hc1
+  have hd1 : b1.depth = 1 := congrArg Core.depth hc1
+  rw [irf_add_pos_out b1 E now k v (by omega) (by rw [hr1]; exact hI.noexp), hcf1, selKey_congr hr1]
+  have hhas : (irf_abs G).has (keyOf E G.cfg k) =
+      (G.selKey (keyOf E G.cfg k).1 (keyOf E G.cfg k).2).isSome := by
+    rw [irf_abs_has]
+    cases hs : G.selKey (keyOf E G.cfg k).1 (keyOf E G.cfg k).2 with
+    | none => rw [selKey_none_iff.1 hs]; rfl
+    | some r =>
+      cases hany : G.rows.any (keyMatch (keyOf E G.cfg k).1 (keyOf E G.cfg k).2) with
+      | true => rfl
+      | false => rw [selKey_none_iff.2 hany] at hs; cases hs
+  unfold OSpec.add irf_addOut
+  cases place E G.cfg.disk G.cfg.minFileSize v false with
+  | error e => rfl
+  | ok p =>
+    simp only
+    rw [hhas]
+    cases bindable (keyOf E G.cfg k).1 <;>
+      cases (G.selKey (keyOf E G.cfg k).1 (keyOf E G.cfg k).2).isSome <;>
+      cases bindable (entryOf p none .null).val <;> rfl
+
 /-- leaving the block normally after the insertion: the state is (up to ghost fields) the quiescent
 state "value stored, row inserted" -/
 theorem irf_block_commit (G b1 b3 : Cache) (p : Placement) (dbk : SqlVal) (raw : Bool) (now : Int)
@@ -650,7 +753,15 @@ theorem irf_setdefault (x : Index) (E : Externals) (now : Int) (k v : PyVal) (h 
   rw [hc0] at hc1
   obtain ⟨hb2, hcase⟩ := irf_add_in_block G b1 E now k v hI hc1
   have hti2 : TableInv (b1.add E now k v none false .null).1 := add_inv _ _ _ _ _ _ _ _ hti1
+  rw [irf_add_out_block G b1 E now k v hI hc1]
   generalize (b1.add E now k v none false .null).1 = b2 at hb2 hcase hti2 ⊢
+  by_cases hexc : irf_isExc (OSpec.add (irf_abs G) E G.cfg k v).2 = true
+  case pos =>
+    -- `add` raised: the exception leaves the block, which is rolled back
+    rw [if_pos hexc, if_pos hexc]
+    have hexit2 := irf_exit_traise G b2 hI hb2 hti2
+    exact ⟨rfl, hexit2.1, hexit2.2.1, hexit2.2.2⟩
+  rw [if_neg hexc, if_neg hexc]
   have hcf2 : b2.cfg = G.cfg := hb2.cfg
   obtain ⟨hc3, ho3⟩ := irf_get_any b2 E now k (by rw [hcf2]; exact hI.pol)
   have hti3 : TableInv (b2.get E now k false false false).1 := get_inv _ _ _ _ _ _ _ hti2
